@@ -129,7 +129,7 @@ fn chunk_ranges(len: usize, hl: usize) -> Vec<(usize, usize)> {
     v
 }
 
-pub fn mutants(base: usize, a: &[u8], sibling: &[u8], hl: usize, thorough: bool) -> Vec<Mutant> {
+pub fn mutants(base: usize, a: &[u8], sibling: &[u8], evil: &[u8], hl: usize, thorough: bool) -> Vec<Mutant> {
     let mut out: Vec<Mutant> = Vec::new();
     let mut push = |kind: &'static str, desc: String, bytes: Vec<u8>, all: bool, out: &mut Vec<Mutant>| {
         let idx = out.len();
@@ -224,6 +224,14 @@ pub fn mutants(base: usize, a: &[u8], sibling: &[u8], hl: usize, thorough: bool)
             push("header_incr", format!("{what} incremented bytewise"), b, false, &mut out);
         }
     }
+    // downgrade: ENCRYPT bit of the (unauthenticated) header cleared, encryption parameters kept, body replaced
+    // by the body of an attacker-made archive without encryption (9-byte header)
+    if evil.len() > 9 {
+        let mut b = a[..hl].to_vec();
+        b[7] &= !1u8;
+        b.extend_from_slice(&evil[9..]);
+        push("downgrade_to_cleartext", "ENCRYPT layer bit cleared in the header, body replaced by an unencrypted archive body".to_string(), b, true, &mut out);
+    }
     // low-order point as ephemeral key
     let mut b = a.to_vec();
     b[9..41].copy_from_slice(&[0u8; 32]);
@@ -259,6 +267,58 @@ pub fn base_programs() -> Vec<(Program, Cfg)> {
     ]
 }
 
+/// The header is not authenticated: the command-line tool defends against a downgrade (encryption bit
+/// cleared, cleartext body substituted) by refusing an archive that is not encrypted when a private
+/// key was given. That guard is exercised here on the mlar binary built from the tree.
+fn cli_downgrade(cases: &[(Vec<u8>, Vec<u8>)], rep: &mut Report) {
+    use crate::cli::{self, Scratch};
+    let exe = cli::mlar_path("s");
+    if !exe.exists() {
+        rep.notes.push("mlar binary not built: CLI downgrade guard not exercised".to_string());
+        return;
+    }
+    let scratch = Scratch::new("c03");
+    let dir = scratch.path();
+    let mut der = vec![0x30u8, 0x2e, 0x02, 0x01, 0x00, 0x30, 0x05, 0x06, 0x03, 0x2b, 0x65, 0x6e, 0x04, 0x22, 0x04, 0x20];
+    der.extend_from_slice(&crate::keys::secret(0).to_bytes());
+    let _ = std::fs::write(dir.join("key.der"), &der);
+    for (ci, (header, evil)) in cases.iter().enumerate() {
+        if evil.len() <= 9 {
+            continue;
+        }
+        // two forms: encryption parameters kept in the header (option tag 1), or dropped (a plain
+        // unencrypted archive presented to a user who supplies a key)
+        let mut kept = header.clone();
+        kept[7] &= !1u8;
+        kept.extend_from_slice(&evil[9..]);
+        for (form, bytes) in [("encryption parameters kept", kept), ("plain unencrypted archive", evil.clone())] {
+            let _ = std::fs::write(dir.join("d.mla"), &bytes);
+            for cmd in [vec!["list"], vec!["cat", "evil"], vec!["extract", "-o", "x"], vec!["to-tar", "-o", "x.tar"]] {
+                rep.evaluations += 1;
+                rep.transitions += 1;
+                let h = fnv(format!("clidg{ci}{form}{cmd:?}").as_bytes());
+                rep.state(h);
+                rep.nontrivial(h);
+                let mut args: Vec<String> = vec![cmd[0].to_string(), "-i".into(), "d.mla".into(), "-k".into(), "key.der".into()];
+                args.extend(cmd[1..].iter().map(|x| x.to_string()));
+                let o = cli::run(&exe, dir, &args, None);
+                rep.class(&format!("cli-downgrade/{}", if o.status.success() { "ACCEPTED" } else { "refused" }));
+                let leaked = String::from_utf8_lossy(&o.stdout).contains("evil") || std::fs::read(dir.join("x").join("evil")).is_ok();
+                if o.status.success() || leaked {
+                    rep.violate(Violation {
+                        sig: json!({"kind": "cli_accepts_downgraded_archive", "command": cmd[0]}),
+                        detail: format!("header with the encryption bit cleared ({form}) + unencrypted body: mlar {args:?} exited {:?} and served the attacker's file", o.status.code()),
+                        replay: json!({"cli_downgrade": ci, "form": form, "command": cmd}),
+                        weight: ci as u64,
+                    });
+                }
+                let _ = std::fs::remove_dir_all(dir.join("x"));
+                let _ = std::fs::remove_file(dir.join("x.tar"));
+            }
+        }
+    }
+}
+
 pub fn run(started: Instant) -> i32 {
     let thorough = infra::thorough();
     let mut progs = base_programs();
@@ -268,11 +328,17 @@ pub fn run(started: Instant) -> i32 {
         progs.push((base_programs()[0].0.clone(), Cfg::lvl(L4::Both, 11)));
     }
     let mut rep0 = Report::new();
+    let mut downgrades: Vec<(Vec<u8>, Vec<u8>)> = Vec::new();
     let mut all: Vec<Mutant> = Vec::new();
     let mut origs: Vec<BTreeMap<String, Vec<u8>>> = Vec::new();
     for (bi, (p, cfg)) in progs.iter().enumerate() {
         let a = guard(|| prog::build(p, cfg));
         let s = guard(|| prog::build(p, cfg));
+        // the attacker's archive: same layers minus encryption, one file named "evil"
+        let mut evil_p = Program::new(vec![Op::Add(0, 9)], Entropy::Pattern);
+        evil_p.names = vec!["evil".to_string()];
+        let evil_cfg = Cfg::lvl(if cfg.layers.compressed() { L4::Compress } else { L4::None }, 5);
+        let evil = guard(|| prog::build(&evil_p, &evil_cfg)).ok().and_then(|r| r.ok()).map(|x| x.0).unwrap_or_default();
         let (Ok(Ok((a, _))), Ok(Ok((s, _)))) = (a, s) else {
             rep0.notes.push(format!("base {bi} could not be built (see C01)"));
             origs.push(BTreeMap::new());
@@ -280,7 +346,8 @@ pub fn run(started: Instant) -> i32 {
         };
         let hl = refstream::header_len(true, 1);
         origs.push(p.model().files);
-        let ms = mutants(bi, &a, &s, hl, thorough);
+        let ms = mutants(bi, &a, &s, &evil, hl, thorough);
+        downgrades.push((a[..hl].to_vec(), evil.clone()));
         rep0.sample(json!({"base": bi, "program": p.short(), "cfg": cfg.json(), "archive_len": a.len(), "chunks": chunk_ranges(a.len(), hl).len(), "mutants": ms.len()}));
         all.extend(ms);
     }
@@ -323,13 +390,14 @@ pub fn run(started: Instant) -> i32 {
         infra::watch_idle();
     });
     rep.merge(rep0);
+    cli_downgrade(&downgrades, &mut rep);
     infra::finish(
         rep,
         Meta {
             level: "fault_enumeration",
-            rule: "encrypted base archives from the real writer (3 interleaved files, >=5 chunks; encrypt and encrypt+compress); mutants: every single-bit flip of every byte, every byte set to 00/FF, every truncation, all chunk swaps/duplications/deletions/replacements (same archive, sibling archive with another key), header field edits; each opened with the real ArchiveReader and all files read in all 6 orders (chunk edits, identity) or one rotating order, 7-byte or 4096-byte reads, reader configuration alternating between the default and one with the fail-safe-only option failsafe_return_data_even_unauthenticated() set. Oracle: every Ok(n) read equals the original bytes at that position, no foreign name listed, the unaltered archive reads back completely. non-trivial = distinct (mutant, order) other than identity".to_string(),
+            rule: "encrypted base archives from the real writer (3 interleaved files, >=5 chunks; encrypt and encrypt+compress); mutants: every single-bit flip of every byte, every byte set to 00/FF, every truncation, all chunk swaps/duplications/deletions/replacements (same archive, sibling archive with another key), header field edits, and the downgrade (encryption bit cleared + unencrypted body substituted; also presented to the mlar binary with a private key, which must refuse it); each opened with the real ArchiveReader and all files read in all 6 orders (chunk edits, identity) or one rotating order, 7-byte or 4096-byte reads, reader configuration alternating between the default and one with the fail-safe-only option failsafe_return_data_even_unauthenticated() set. Oracle: every Ok(n) read equals the original bytes at that position, no foreign name listed, the unaltered archive reads back completely. non-trivial = distinct (mutant, order) other than identity".to_string(),
             exhaustive: true,
-            bounds: json!({"bases": progs.len(), "mutation_operators": ["bitflip(all bits of all bytes)", "byteset 00/FF", "truncate(all lengths)", "chunk swap/duplicate/delete/replace/sibling/last-to-front", "header zero/increment/low-order point"], "read_orders": "all 6 permutations for chunk edits and identity; rotating single order otherwise"}),
+            bounds: json!({"bases": progs.len(), "mutation_operators": ["bitflip(all bits of all bytes)", "byteset 00/FF", "truncate(all lengths)", "chunk swap/duplicate/delete/replace/sibling/last-to-front", "header zero/increment/low-order point", "downgrade: ENCRYPT bit cleared + unencrypted body (library: known finding; mlar with a key: must refuse, 4 commands x 2 forms)"], "read_orders": "all 6 permutations for chunk edits and identity; rotating single order otherwise"}),
             assumptions: vec!["scaled constants; panics are counted here but judged by C08".to_string(), "forging a tag is assumed infeasible".to_string()],
         },
         started,
